@@ -262,12 +262,13 @@ find_eol(const char *buffer, const size_t buflen, int *valid)
 /**
  * read input until a line with a valid length is in buffer
  * @param has_cr if the previous buffer ended with CR
+ * @param fatal if connection errors should lead to program termination
  *
  * This function will set errno to the proper error code before
  * returning.
  */
 static void
-loop_long(int has_cr)
+loop_long(int has_cr, const int fatal)
 {
 	const char *p;
 	do {
@@ -275,7 +276,7 @@ loop_long(int has_cr)
 		/* The idea here is to read input until we find a valid line end (CRLF),
 		 * drop everything until this point (i.e. the too long line) and keep
 		 * the rest in the buffer, but still return with an error code. */
-		linenlen = readinput(lineinbuf, sizeof(lineinbuf), 1);
+		linenlen = readinput(lineinbuf, sizeof(lineinbuf), fatal);
 
 		if (linenlen == (size_t) -1) {
 			/* reset that to 0, otherwise it will confuse net_read() */
@@ -394,11 +395,11 @@ net_read(const int fatal)
 		return 0;
 	} else if (p == NULL) {
 		/* the whole buffer is filled, but neither CR nor LF is found */
-		loop_long(0);
+		loop_long(0, fatal);
 		return -1;
 	} else if ((p == lineinbuf + sizeof(lineinbuf) - 1) && (*(p - 1) == '\r')) {
 		/* We found a CR, but a too long line. Let's find out if an LF will follow. */
-		loop_long(1);
+		loop_long(1, fatal);
 		return -1;
 	} else {
 		/* copy the rest of the input buffer back to lineinn, then return error */
